@@ -41,6 +41,10 @@ def run(R):
                 del want[name]
         t += 1
     hs = [{"id": R.next_id(), "cls": "fn", "ev": [{"op": "ed_keypair", "seed": s}, {"op": "ed_signature", "seed": s, "msg": m}]} for s, m in pairs]
+    # triples made with the extended-key interface: an extended secret that is the image of a seed, and free ones (scalar reduced / not in clamped shape)
+    exts = [cc.extended_secret(pairs[0][0])] + [cc.le32(v) + rb("extprefix%d" % i) for i, v in enumerate([(int.from_bytes(bytes(rb("extscalar")), "little") % cc.L), 8, (1 << 254) + 40])]
+    ext_hs = [{"id": R.next_id(), "cls": "fn", "ev": [{"op": "ed_extended_to_public", "ext": x}, {"op": "ed_signature_extended", "ext": x, "msg": rb("extmsg%d" % i, 10 + 30 * i)}]} for i, x in enumerate(exts)]
+    hs += ext_hs
     res = R.conform("TraceCurve", hs, cost=cc.cost_curve, describe=lambda r, v: {"cls": "fn", "op": r["ev"][v[1] - 1]["op"], "phase": 1}, label="TraceCurve.sign", timeout=3000)
     evs = []
 
@@ -50,6 +54,9 @@ def run(R):
     honest = []
     for r in res["records"]:
         if r["ev"][0]["out"]["k"] != "v" or r["ev"][1]["out"]["k"] != "v":
+            continue
+        if r["ev"][0]["op"] == "ed_extended_to_public":
+            honest.append((r["ev"][1]["msg"], r["ev"][0]["out"]["v"], r["ev"][1]["out"]["v"]))
             continue
         pk = r["ev"][0]["out"]["v"][32:64]
         honest.append((r["ev"][1]["msg"], pk, r["ev"][1]["out"]["v"]))
